@@ -35,6 +35,57 @@ def costAcc (M : Model) : Term → Nat → Nat
   | .abs _ T b, c => costAcc M b (max c (M.size T))
   | _, c => c
 
+/-- `b ^ e` saturated at `cap + 1` without ever computing a huge power -/
+def powC (b e cap : Nat) : Nat :=
+  if e = 0 then 1
+  else if b ≤ 1 then b
+  else if e ≥ 64 then cap + 1
+  else min (b ^ e) (cap + 1)
+
+mutual
+/-- `M.size T` saturated at `cap + 1` -/
+def sizeC (M : Model) (cap : Nat) : Ty → Nat
+  | .stvar n => min (M.stv n + 1) (cap + 1)
+  | .tvar n => min (M.tv n + 1) (cap + 1)
+  | .con n args =>
+    let ss := sizeCList M cap args
+    match n, ss with
+    | "bool", [] => 2
+    | "fun", [a, b] => powC b a cap
+    | _, _ => min (M.con n ss + 1) (cap + 1)
+def sizeCList (M : Model) (cap : Nat) : List Ty → List Nat
+  | [] => []
+  | a :: as => sizeC M cap a :: sizeCList M cap as
+end
+
+mutual
+/-- every function type inside `T` has a domain of size ≤ cap (so `M.size T` is computable) -/
+def domOK (M : Model) (cap : Nat) : Ty → Bool
+  | .con n args =>
+    (match n, args with
+     | "fun", [a, _] => sizeC M cap a ≤ cap
+     | _, _ => true) && domOKList M cap args
+  | _ => true
+def domOKList (M : Model) (cap : Nat) : List Ty → Bool
+  | [] => true
+  | a :: as => domOK M cap a && domOKList M cap as
+end
+
+/-- all types `sem` may ask the size of: annotations and lax types of subterms -/
+def typesAcc (bd : List Ty) : Term → List Ty → List Ty
+  | .svar _ T, acc | .var _ T, acc | .const _ T, acc => T :: acc
+  | .comb f a, acc =>
+    let acc := typesAcc bd a (typesAcc bd f acc)
+    match Term.getType bd (.comb f a) with
+    | .ok T => T :: acc
+    | .error _ => acc
+  | .abs x T b, acc =>
+    let acc := typesAcc (T :: bd) b (T :: acc)
+    match Term.getType bd (.abs x T b) with
+    | .ok S => S :: acc
+    | .error _ => acc
+  | .bound _, acc => acc
+
 structure Spec where
   stv : List (String × Nat)
   tv : List (String × Nat)
@@ -73,11 +124,16 @@ inductive Verdict where
   | skip (why : String)
 
 def search (M : Model) (th : Thm) (budget seed maxCost : Nat) : Verdict :=
+  let terms := th.hyps ++ [th.prop]
+  let tys := terms.foldl (fun acc t => typesAcc [] t acc) []
+  if !(tys.all (domOK M maxCost)) then .skip "type too large"
+  else
   let atoms := thmAtoms th
+  if atoms.any (fun a => sizeC M maxCost a.2.2 > maxCost) then .skip "atom size"
+  else
   let sized := atoms.map (fun a => (a, M.size a.2.2))
-  let cost := (th.hyps ++ [th.prop]).foldl (fun c t => costAcc M t c) 0
+  let cost := terms.foldl (fun c t => costAcc M t c) 0
   if cost > maxCost then .skip s!"cost {cost}"
-  else if sized.any (fun p => p.2 > maxCost) then .skip "atom size"
   else
     let total := sized.foldl (fun acc p => acc * p.2) 1
     if total ≤ budget then
